@@ -2,7 +2,8 @@
 from corr import corr_ghost
 import implsearch as IS
 
-MODULES = ["PyFV.Props.C03"]
+MODULES = ["PyFV.Props.C03", "PyFV.Props.GenEqBC"]
+TRANSLATORS = {"T-bc": "python3 harness/translate/tbc.py lean/PyFV/Gen/BCGen.lean"}
 
 
 def corr(rng, tier):
